@@ -10,13 +10,16 @@ open Nfpm B Path Arc
 
 def showName (n : Bytes) : String := String.fromUTF8! ⟨n.toArray⟩
 
+/-- a member name with its trailing slash removed: the path it stands for (as in `Spec.checkNames`) -/
+def stripSlash (n : Bytes) : Bytes := if endsWithSlash n then n.dropLast else n
+
 /-- rules for the member names of one tar: `dotted` = names must start with "./" (deb, ipk) -/
 def checkNames (dotted : Bool) (ms : List (Bytes × UInt8)) : List String :=
   let names := ms.map (·.1)
   let root : Bytes := if dotted then b!"./" else []
   (if names.eraseDups.length = names.length then [] else ["duplicate-member-name"])
   -- one path is one member: not a directory `a/b/` and a non-directory `a/b` side by side
-  ++ (let paths := names.map (fun n => if endsWithSlash n then n.dropLast else n)
+  ++ (let paths := names.map stripSlash
       if paths.eraseDups.length = paths.length then [] else ["one-path-as-directory-and-as-non-directory"])
   ++ ((ms.filter (fun m => !isRelative m.1)).map (fun m => "absolute-name:" ++ showName m.1))
   ++ ((ms.filter (fun m => m.1.isEmpty)).map (fun _ => "empty-name"))
